@@ -176,7 +176,14 @@ impl Ctx {
     }
     let mut c = ConcatSource::default();
     for (typed, child) in cs {
-      if *typed && matches!(child, T::Concat(_)) { c.add(self.build_concat(child)); } else { c.add(self.build(child)); }
+      if *typed && matches!(child, T::Concat(_)) { c.add(self.build_concat(child)); }
+      // leaves of even length are handed to `add` as their own types, not boxed (`add` is generic and may treat a typed RawSource /
+      // OriginalSource specially: seed S117).  The choice depends on the child alone: `add(x)` and `add(x.boxed())` give values
+      // that behave alike but compare unequal (the second is boxed twice), and the model does not distinguish them.
+      else if crate::refmodel::ref_buf(child).len() % 2 == 0 { match child {
+        T::Raw(s) => c.add(RawSource::from(s.clone())), T::RawB(b) => c.add(RawSource::from(b.clone())), T::RawStr(s) => c.add(RawStringSource::from(s.clone())),
+        T::RawBuf(b) => c.add(RawBufferSource::from(b.clone())), T::Orig(s, n) => c.add(OriginalSource::new(s.clone(), n.clone())), _ => c.add(self.build(child)) } }
+      else { c.add(self.build(child)); }
       if self.observed { let _ = c.source(); let _ = c.size(); }
     }
     c
